@@ -119,6 +119,8 @@ def obligations(text, body, declared, tparams, top_ns=()):
             continue
         if lead and len(c) == 1:
             continue                      # `::f` — a global function called with an explicit global qualifier
+        if lead and any(d[-len(c):] == c for d in declared if len(d) >= len(c)):
+            continue                      # continuation of a templated name: `Solver<ns::A>` `::Mode::Fast`
         problems.append("(ii) qualified name %s%s is neither declared nor written in the input" % ("::" if lead else "", "::".join(c)))
     return problems
 
@@ -181,7 +183,7 @@ def c09_callables(role: int, n: int, k: int, t0: int, r: int, flavour: int) -> b
     post: _
     """
     role, n, k, t0, flavour = pick(role, 0, 5), pick(n, 0, 4), pick(k, 0, 4), pick(t0, 0, c04.NPOOL), pick(flavour, 0, 3)
-    r = pick(r, 0, c04.NRET) if THOROUGH else (t0 + n + role) % c04.NRET
+    r = (t0 + n + role + (pick(r, 0, 2) if THOROUGH else 0) * 5) % c04.NRET
     with concrete():
         if role == 0 and flavour == 2:
             flavour = 0
@@ -227,6 +229,53 @@ def c09_variables(d: int, t: int, depth: int, topdepth: int) -> bool:
             problems.append("variables bound as %r, declared value %r" % ([(e["name"], e["value"]) for e in ents], want_val))
         ok = not problems or _fail(text=text, problems=problems, body=body)
     reached({"default": VAR_DEFAULTS[d], "type": VAR_TYPES[t], "depth": depth, "top": topdepth})
+    return ok
+
+
+def c09_this_scoped(ninst: int, member: int, nsdepth: int) -> bool:
+    """
+    A class template with 1-3 instantiations whose constructor / method / static / property types use `This`,
+    `This::Mode` and `T::Value`: in EVERY instantiation's block the types name that instantiation (entities used
+    as written), and obligations (i)-(iv) hold.
+    pre: 1 <= ninst <= 3 and 0 <= member <= 3 and 0 <= nsdepth <= 2
+    post: _
+    """
+    ninst, member, nsdepth = pick(ninst, 1, 4), pick(member, 0, 4), pick(nsdepth, 0, 3)
+    with concrete():
+        insts = ["ns::A", "ns::B", "double"][:ninst]
+        nss = ("top", "mid")[:nsdepth]
+        q = "".join(x + "::" for x in nss)
+        mem = ["Solver(const This::Mode& m);", "This::Mode mode(const This& other, T::Value v) const;",
+               "static This Make(const This::Mode m);", "This::Mode current;"][member]
+        text = ("namespace ns { class A { A(); }; class B { B(); }; }\n" + "".join("namespace %s { " % x for x in nss) +
+                "template<T = {%s}> class Solver { enum Mode { Fast, Slow }; %s };" % (", ".join(insts), mem) + " }" * nsdepth)
+        body = pipe.pybind_body(text)
+        ents = readers.parse_pybind(body)
+        problems = []
+        for inst in insts:
+            cname = "Solver" + inst.split("::")[-1].capitalize()[:1] + inst.split("::")[-1][1:]
+            cpp = "%sSolver<%s>" % (q, inst)
+            ce = [e for e in ents if e["ent"] == "class" and e["name"] == cname]
+            if len(ce) != 1:
+                problems.append("%d classes named %s" % (len(ce), cname)); continue
+            stmt = ce[0]["stmt"] + " ".join(x["stmt"] for x in ents if x["ent"] == "class-chain" and x.get("target") == ce[0].get("instance"))
+            used = set(re.findall(r"Solver<[^>]*>", stmt))
+            if used != {"Solver<%s>" % inst}:
+                problems.append("block of %s mentions %r" % (cname, sorted(used)))
+            mode = "Solver<%s>::Mode" % inst
+            if member in (0, 2) and mode not in stmt.replace(cpp + "::Mode::", ""):
+                problems.append("block of %s does not use %s" % (cname, mode))
+            if member == 1 and (inst + "::Value") not in stmt:
+                problems.append("block of %s does not use %s::Value" % (cname, inst))
+        declared = {("ns", "A"), ("ns", "B")}
+        for extra in ((), ("Mode",), ("Mode", "Fast"), ("Mode", "Slow"), ("mode",), ("Make",), ("current",)):
+            declared.add(nss + ("Solver",) + extra)
+            declared.add(("Solver",) + extra)                # a scoped `This` is rendered with the class name only (DOCS.md)
+        for i in insts:
+            declared.add(tuple(i.split("::")) + ("Value",))
+        problems += obligations(text, body, declared, ["T"])
+        ok = not problems or _fail(text=text, problems=problems[:6], body=body)
+    reached({"instantiations": ninst, "member": member, "nsdepth": nsdepth})
     return ok
 
 
@@ -293,6 +342,8 @@ def conds(tier):
                 bounds="27 namespace-name combinations x 7 top-namespace choices x re-opened namespace"),
         xh.Cond(M, "c09_callables", t(600, 3000), kind=sb, path_timeout=90, examples=["role=1, n=2, k=1, t0=7, r=5, flavour=1", "role=4, n=3, k=3, t0=2, r=3, flavour=2"],
                 bounds="5 roles x 0-3 args x defaults x %d arg types x 3 template flavours%s" % (c04.NPOOL, " x all return shapes" if not q else "")),
+        xh.Cond(M, "c09_this_scoped", t(200, 600), kind=sb, examples=["ninst=2, member=0, nsdepth=1", "ninst=3, member=1, nsdepth=0", "ninst=2, member=3, nsdepth=2"],
+                bounds="1-3 instantiations x 4 member kinds using This / This::Mode / T::Value x namespace depth 0-2"),
         xh.Cond(M, "c09_exports", t(200, 600), kind=sb, examples=["mask=15, nsdepth=1", "mask=2, nsdepth=2", "mask=9, nsdepth=0"],
                 bounds="15 subsets of 4 serializable classes (plain, 2- and 3-parameter templates, nested template argument) x namespace depth"),
         xh.Cond(M, "c09_variables", t(300, 900), kind=sb, examples=["d=1, t=0, depth=1, topdepth=0", "d=3, t=2, depth=3, topdepth=2", "d=0, t=4, depth=2, topdepth=1"],
